@@ -8,7 +8,6 @@ import (
 	"math/big"
 	"strings"
 
-	"github.com/bytemare/secp256k1"
 	"github.com/bytemare/secp256k1/internal/field"
 	"github.com/bytemare/secp256k1/internal/scalar"
 )
@@ -312,164 +311,6 @@ func (f *FM) wide48() []byte {
 	return out
 }
 
-// ---------------------------------------------------------------- C11
-
-func readAffine(e *secp256k1.Element) (x, y []byte) {
-	if secp256k1.VerifAccessor {
-		xl, yl, _ := secp256k1.VerifLimbs(e)
-		rinv := new(big.Int).ModInverse(bigR, bigP)
-		return be32(mulmod(limbsToBig(*xl), rinv, bigP)), be32(mulmod(limbsToBig(*yl), rinv, bigP))
-	}
-	u := e.EncodeUncompressed() // Z = 1 after SSWU: 04 || x || y
-	if len(u) != 65 {
-		return make([]byte, 32), make([]byte, 32)
-	}
-	return u[1:33], u[33:]
-}
-
-func (f *FM) resultObs(e *secp256k1.Element) []kv {
-	enc := e.Encode()
-	w, sq := f.witnessFor(enc)
-	return []kv{{"enc", enc}, {"id", e.IsIdentity()}, {"y", w}, {"sq", sq}}
-}
-
-func genC11(m *M, budget int) {
-	f := &FM{M: m}
-	// the three exceptional u: 0 and +-sqrt(-1/Z)
-	negInvZ := new(big.Int).ModInverse(sswuZ, bigP)
-	negInvZ.Neg(negInvZ).Mod(negInvZ, bigP)
-	exc := new(big.Int).ModSqrt(negInvZ, bigP)
-	i := 0
-	for f.events < budget {
-		f.reset()
-		for j := 0; j < 10; j++ {
-			var u *big.Int
-			cls := ""
-			switch i % 12 {
-			case 0:
-				u, cls = big.NewInt(0), "u=0(exceptional)"
-			case 1:
-				if exc != nil {
-					u, cls = exc, "u=+sqrt(-1/Z)(exceptional)"
-				} else {
-					u, cls = big.NewInt(1), "one"
-				}
-			case 2:
-				if exc != nil {
-					u, cls = new(big.Int).Sub(bigP, exc), "u=-sqrt(-1/Z)(exceptional)"
-				} else {
-					u, cls = big.NewInt(2), "two"
-				}
-			case 3:
-				u, cls = big.NewInt(1), "one"
-			case 4:
-				u, cls = new(big.Int).Sub(bigP, one), "minus_one"
-			case 5:
-				u, cls = big.NewInt(int64(2+f.rng.Intn(1000))), "small"
-			default:
-				u, cls = f.randBig(bigP), "random"
-			}
-			if i%12 >= 9 {
-				// u for which the intermediate  tv2 = Z^2 u^4 + Z u^2  has boundary / structured Montgomery limbs (the
-				// exceptional-case test looks at exactly this value): solve  Z^2 v^2 + Z v - w = 0  for v = u^2
-				if uu := f.solveTv2(); uu != nil {
-					u, cls = uu, "tv2_structured"
-				}
-			}
-			i++
-			_, _, first := sswuRef(u)
-			f.class("u:" + cls)
-			f.class(map[bool]string{true: "gx1:square", false: "gx1:nonsquare"}[first])
-			f.class(map[uint]string{0: "sgn0(u)=0", 1: "sgn0(u)=1"}[u.Bit(0)])
-			f.setInt(0, u)
-			q := secp256k1.SSWU(f.F[0])
-			x, y := readAffine(q)
-			f.emitF("MSswu", kv{"a", 1}, kv{"x", x}, kv{"y", y})
-			r := secp256k1.IsogenySecp256k13iso(q)
-			f.emitF("MIso", kv{"x", x}, kv{"y", y}, kv{"res", f.resultObs(r)})
-			if secp256k1.VerifAccessor && j%5 == 4 {
-				if sx, sy := f.structuredXDenPoint(); sx != nil {
-					e := secp256k1.NewElement()
-					xl, yl, zl := secp256k1.VerifLimbs(e)
-					*xl, *yl, *zl = montLimbs(sx, bigP), montLimbs(sy, bigP), montLimbs(one, bigP)
-					r2 := secp256k1.IsogenySecp256k13iso(e)
-					f.class("iso:x_den_structured")
-					f.emitF("MIso", kv{"x", be32(sx)}, kv{"y", be32(sy)}, kv{"res", f.resultObs(r2)})
-				}
-			}
-			// the isogeny on other points of E' (sums of mapped points), when raw coordinates can be written
-			if secp256k1.VerifAccessor && j%3 == 2 {
-				u2 := f.randBig(bigP)
-				x2, y2, _ := sswuRef(u2)
-				xb, yb := new(big.Int).SetBytes(x), new(big.Int).SetBytes(y)
-				if sx, sy, ok := addIsoRef(xb, yb, x2, y2); ok {
-					e := secp256k1.NewElement()
-					xl, yl, zl := secp256k1.VerifLimbs(e)
-					*xl, *yl, *zl = montLimbs(sx, bigP), montLimbs(sy, bigP), montLimbs(one, bigP)
-					r2 := secp256k1.IsogenySecp256k13iso(e)
-					f.class("iso:sum_of_mapped_points")
-					f.emitF("MIso", kv{"x", be32(sx)}, kv{"y", be32(sy)}, kv{"res", f.resultObs(r2)})
-				}
-			}
-		}
-	}
-}
-
-// solveTv2 returns u with Z^2 u^4 + Z u^2 = w for a structured w, or nil.
-func (f *FM) solveTv2() *big.Int {
-	for try := 0; try < 40; try++ {
-		var wm *big.Int
-		if f.rng.Intn(2) == 0 {
-			wm = f.limbStruct()
-		} else {
-			wm, _ = f.window()
-		}
-		w := mulmod(new(big.Int).Mod(wm, bigP), rInvP, bigP) // the value whose Montgomery form is wm
-		// v = (-1 +- sqrt(1 + 4w)) / (2Z)
-		d := new(big.Int).Lsh(w, 2)
-		d.Add(d, one).Mod(d, bigP)
-		sq := new(big.Int).ModSqrt(d, bigP)
-		if sq == nil {
-			continue
-		}
-		if f.rng.Intn(2) == 0 {
-			sq.Sub(bigP, sq)
-		}
-		num := new(big.Int).Sub(sq, one)
-		den := new(big.Int).ModInverse(new(big.Int).Mod(new(big.Int).Lsh(sswuZ, 1), bigP), bigP)
-		v := mulmod(new(big.Int).Mod(num, bigP), den, bigP)
-		if u := new(big.Int).ModSqrt(v, bigP); u != nil {
-			return u
-		}
-	}
-	return nil
-}
-
-// structuredXDenPoint returns a point (x, y) of E' whose isogeny x-denominator x^2 + k21 x + k20 has structured
-// Montgomery limbs (the zero test of the isogeny looks at exactly this value), or nil.
-func (f *FM) structuredXDenPoint() (*big.Int, *big.Int) {
-	k20, _ := new(big.Int).SetString("d35771193d94918a9ca34ccbb7b640dd86cd409542f8487d9fe6b745781eb49b", 16)
-	k21, _ := new(big.Int).SetString("edadc6f64383dc1df7c4b2d51b54225406d36b641f5e41bbc52a56612a8c6d14", 16)
-	inv2 := new(big.Int).ModInverse(two, bigP)
-	for try := 0; try < 60; try++ {
-		w := mulmod(new(big.Int).Mod(f.limbStruct(), bigP), rInvP, bigP)
-		// x^2 + k21 x + (k20 - w) = 0
-		disc := mulmod(k21, k21, bigP)
-		t := new(big.Int).Sub(k20, w)
-		disc.Sub(disc, new(big.Int).Lsh(t, 2)).Mod(disc, bigP)
-		sq := new(big.Int).ModSqrt(disc, bigP)
-		if sq == nil {
-			continue
-		}
-		x := new(big.Int).Sub(sq, k21)
-		x = mulmod(new(big.Int).Mod(x, bigP), inv2, bigP)
-		if y := new(big.Int).ModSqrt(gIso(x), bigP); y != nil {
-			return x, y
-		}
-	}
-	return nil, nil
-}
-
 // genC09w: the scalar field's wide reduction on chosen 48-byte strings (DESIGN C09 (ii)).
 func genC09w(m *M, budget int) {
 	f := &FM{M: m}
@@ -542,6 +383,5 @@ func init() {
 		}
 	}
 	gens["C12"] = simple(genC12, 20000, 1000000)
-	gens["C11"] = simple(genC11, 600, 100000)
 	gens["C09w"] = simple(genC09w, 1500, 300000)
 }
